@@ -77,10 +77,13 @@ func init() {
 			"Escalations also run with bare-text escalate prompts whose edge white space is significant (\": \", \"Password: \", \" password:\"; hosts with colons), and through the embedded platform definitions that have an authenticated level " +
 			"(cumulus_linux, cisco_iosxe, arista_eos, cisco_nxos, juniper_junos root shell, aruba_wlc, ruijie_rgos; Open runs the definition's on-open steps, then the authenticated level is acquired) against a device driven by the definition's own commands: " +
 			"asks/grants/refuses/rejects, secondary secret set or unset, the device's answer delivered whole or cut into two reads at any position, preferably behind a colon. " +
+			"Answers longer than the search depth (default and small) with lines whose tail looks like a prompt (<rpc-reply>, ...sw1#, $1$abc$) to events that wait for the prompt, half of them delivered byte-wise so that (bytes read - depth) visits every offset inside every tail. " +
+			"Early finishes in which completion text, text matching the event's expected response and the prompt arrive in one atomic segment (completion wins), and escalations without a password question whose notice line matches a loose escalate prompt in one segment with the prompt (own bare-text levels; cumulus_linux 'sudo: unable to resolve host ...'). " +
 			"Distinct = distinct descriptor hash.",
 		Assumptions: []string{
 			"device is causal (devsim.CLI): echoes visible input, reads hidden input without echo, reacts to a line only when its return arrived",
-			"every expected-response regexp contains a token that is unique in the session, so it can match nowhere but in its own response text; no '#', '>', '$' outside prompts, so the prompt pattern matches prompts only",
+			"every expected-response regexp contains a token that is unique in the session, so it can match nowhere but in its own response text; no WHOLE line other than a prompt is accepted by the prompt pattern (lines may END like a prompt: only their tail would match; generator check by brute force on line-aligned windows)",
+			"text matching a loose escalate prompt / an expected response outside its question is generated only behind-or-with a completion pattern inside one atomic segment, where the outcome does not depend on segmentation",
 			"match point = smallest prefix of the device's reaction to event i-1 (normalised: CR removed) on which one of the patterns the call uses (completion patterns, expected response or the session's prompt pattern) matches; computed by brute force with those regexps",
 			"the session has consumed the prompt that precedes the dialogue when the first event waits for the prompt: a warm-up plain command precedes (its echo read swallows stale output). A dedicated share of such dialogues is run in a fresh session instead (descriptor fresh=true, dialogue only); their pacing/whole-dialogue violations carry the key suffix :fresh-session (known finding: the stale initial prompt is taken for the device's answer)",
 			"visible echo-matched inputs end in a byte that occurs nowhere else; bytes withheld by the device lie behind the match point; search depth exceeds every line",
